@@ -500,7 +500,7 @@ pub fn configs(thorough: bool) -> Vec<Config> {
     }
     if thorough {
         v.push(cfg(
-            "E d4, C e4 vs d d5 in the 2x3 window d4-e6 to 6 turns",
+            "E d4, C e4 vs d d5 in the 2x3 window d4-e6 to 4 turns",
             [
                 " r               ",
                 "                 ",
@@ -514,7 +514,7 @@ pub fn configs(thorough: bool) -> Vec<Config> {
             true,
             "d4 e4 d5 e5 d6 e6",
             "d4 e4 d5 e5 d6 e6",
-            Some(6),
+            Some(4),
         ));
     }
     v
